@@ -112,9 +112,9 @@ func rootsFor(prop, tier string) []Root {
 			add("VH_C02_Category", kw, 4)
 		}
 	case "C04":
-		for f := 0; f < 8; f++ {
+		for f := 0; f < 9; f++ {
 			rs = append(rs, Root{Prop: prop, Harness: "VH_C04_Exit", Params: []int{1, f}, MaxDecs: 2000})
-			if thorough || f == 0 || f == 2 || f == 6 {
+			if thorough || f == 0 || f == 2 {
 				rs = append(rs, Root{Prop: prop, Harness: "VH_C04_Exit", Params: []int{2, f}, MaxDecs: 2000})
 			}
 			if thorough && f != 7 {
@@ -134,7 +134,7 @@ func rootsFor(prop, tier string) []Root {
 		}
 	case "C05", "C06":
 		npk := []int{0, 1, 2}
-		for cause := 0; cause < 9; cause++ {
+		for cause := 0; cause < 10; cause++ {
 			for _, n := range npk {
 				for ahead := 0; ahead < 2; ahead++ {
 					if cause >= 5 && cause <= 7 && (n != 1 || ahead != 0) {
@@ -164,6 +164,10 @@ func rootsFor(prop, tier string) []Root {
 	case "C08":
 		for _, p := range [][2]int{{20, 20}, {32, 8}, {8, 32}} {
 			add("VH_C08_Transport", p[0], p[1])
+		}
+		// packets around the driver's buffer sizes (4096 default, 262144 largest cached)
+		for _, n := range []int{4096, 4097, 258048, 258050, 262143, 262144, 262145} {
+			rs = append(rs, Root{Prop: prop, Harness: "VH_C08_TransportBig", Params: []int{n}, MaxSteps: 60000000})
 		}
 		if thorough {
 			add("VH_C08_Transport", 4100, 60)
